@@ -458,3 +458,5 @@ func vfShort(b []byte, n int) string {
 func vfJoin(ss []string) string { return strings.Join(ss, ",") }
 
 func runtimeStack(buf []byte) int { return runtime.Stack(buf, true) }
+
+func jsonUnmarshal(b []byte, v any) error { return json.Unmarshal(b, v) }
